@@ -244,6 +244,25 @@ def limitDiffers (ms : KMap Flt) (start stop : Bytes) (opts : List Bytes) : Bool
     | _, _, _ => true
   | _ => true
 
+/-- ZADD without INCR on an existing sorted set, pair by pair against the reference map as it evolves:
+    the first pair on which the code's count or stored score departs names the class -/
+def zaddSeqClass (f : Spec.ZFlags) : KMap Flt → List (Bytes × Flt) → Option String
+  | _, [] => none
+  | cur, (m, sc) :: r =>
+    let old := cur.get m
+    let allowed := Spec.zaddAllowed f old sc
+    let next := if allowed then cur.put m sc else cur
+    match old with
+    | none =>
+      if (f.gt || f.lt) && !f.xx && compareScores Flt.zero sc (if f.gt then b "gt" else b "lt") != sc then
+        some "zadd-gt-lt-new-member-compared-with-zero"
+      else zaddSeqClass f next r
+    | some o =>
+      if f.ch && ((f.xx && (o == sc || !allowed)) || (!f.xx && !f.nx && o != sc && !allowed)) then
+        some "zadd-ch-counts-unchanged-members"
+      else if !f.ch && !f.nx && !f.xx && o != sc then some "zadd-counts-updates-without-ch"
+      else zaddSeqClass f next r
+
 /-- sorted-set commands: the first applicable class -/
 def classifyZSet (c : Ctx) (s : State) (cmd : List Bytes) : Option String :=
   let n := cmdName cmd
@@ -256,6 +275,7 @@ def classifyZSet (c : Ctx) (s : State) (cmd : List Bytes) : Option String :=
   let optsHave (from_ : Nat) (w : Bytes) : Bool := (cmd.drop from_).any fun t => isAscii t && eqFold t w
   if n == b "zadd" && cmd.length ≥ 4 then
     let (f, rest) := Spec.zaddFlags (cmd.drop 2) {}
+    if (Spec.scoreArg key).isSome then some "zadd-numeric-key-rejected" else
     match Spec.zaddPairs rest with
     | .bad =>
       -- a later score that is not a number is skipped together with its member
@@ -278,17 +298,7 @@ def classifyZSet (c : Ctx) (s : State) (cmd : List Bytes) : Option String :=
                          else if (f.nx || f.xx || f.gt || f.lt) then some "zadd-incr-ignores-conditions" else none
              | none => if (f.nx || f.xx || f.gt || f.lt) then some "zadd-incr-ignores-conditions" else none)
           | _ => none
-        else if (f.gt || f.lt) && pairs.any (fun p => (ms.get p.1).isNone && !f.xx &&
-                  compareScores Flt.zero p.2 (if f.gt then b "gt" else b "lt") != p.2) then
-          some "zadd-gt-lt-new-member-compared-with-zero"
-        else if f.ch && pairs.any (fun p => match ms.get p.1 with
-                  | some o => (f.xx && (o == p.2 || !Spec.zaddAllowed f (some o) p.2)) ||
-                              (!f.xx && !f.nx && o != p.2 && !Spec.zaddAllowed f (some o) p.2)
-                  | none => false) then some "zadd-ch-counts-unchanged-members"
-        else if !f.ch && !f.nx && !f.xx && ((pairs.any fun p => match ms.get p.1 with
-                  | some o => o != p.2
-                  | none => false) || (pairs.map (·.1)).eraseDups.length != pairs.length) then some "zadd-counts-updates-without-ch"
-        else none
+        else zaddSeqClass f ms pairs
   else if n == b "zincrby" && cmd.length == 4 then
     match zs, Spec.scoreArg (cmd.getD 2 []) with
     | some ms, some (some d) => (match ms.get (cmd.getD 3 []) with
@@ -307,6 +317,8 @@ def classifyZSet (c : Ctx) (s : State) (cmd : List Bytes) : Option String :=
     some "zcombine-trailing-aggregate-panics"
   else if (n == b "zinterstore" || n == b "zunionstore") && (cmd.drop 2).contains key then some "zstore-destination-dropped-from-operands"
   else if n == b "zinterstore" && cmd.length ≥ 3 && zinterstoreKeyFuncErr cmd then some "zinterstore-options-need-two-keys"
+  else if n == b "zunionstore" && cmd.length ≥ 3 && !Spec.isCombineWord key && ((cmd.drop 2).takeWhile fun t => !Spec.isCombineWord t).isEmpty then
+    some "zunionstore-without-source-keys-accepted"
   else if (n == b "zinterstore" || n == b "zdiffstore") && (match zs with
       | some ms => !ms.isEmpty
       | none => false) &&
@@ -370,6 +382,10 @@ def classifyZSet (c : Ctx) (s : State) (cmd : List Bytes) : Option String :=
         | _, _ => none
       else if optsHave (i + 2) (b "limit") && hasTie ms then some "zset-ties-ordered-by-map-iteration"
       else none
+  else if (n == b "zrank" || n == b "zrevrank") && cmd.length == 4 && isAscii (cmd.getD 3 []) && eqFold (cmd.getD 3 []) (b "withscore") &&
+      (match zs with
+       | some ms => (ms.get (cmd.getD 2 [])).isSome
+       | none => false) then some "zrank-withscore-option-ignored"
   else if (n == b "zrank" || n == b "zrevrank") && cmd.length ≥ 3 then
     match zs with
     | some ms => (match ms.get (cmd.getD 2 []) with
